@@ -52,7 +52,8 @@ def _case(draw, tier):
         g = draw(st.sampled_from(GATES))
         scen.append(dict(gate=g, owner=draw(st.sampled_from(owners_c if g.endswith("conn") else owners_n)), after=draw(st.integers(1, 3)), nth=draw(st.integers(0, 6)),
                          follow=draw(st.sampled_from(["stop", "stop", "reset", "stop_run"]))))
-    return dict(spec=spec, clock="WALL_CLOCK" if wall else "SIMULATED", episodes=eps, scenarios=scen)
+    storm = [draw(st.sampled_from([0, 0, 20, 50, 100, 200, 500, 1000, 3000])) for _ in range(draw(st.integers(6, 14)))]  # microseconds between run()/step() and stop()
+    return dict(spec=spec, clock="WALL_CLOCK" if wall else "SIMULATED", episodes=eps, scenarios=scen, storm=storm)
 
 
 def strategy(tier):
@@ -308,6 +309,24 @@ def check(case) -> CaseResult:
             finally:
                 rel.cancel()
                 gate.disarm()
+        # ---------------- stop storm: stop() directly after run()/step(), at drawn microsecond offsets, many short episodes
+        for k, us in enumerate(case.get("storm", [])):
+            label = f"storm#{k}:{us}us"
+            gs = run.start_state(e)
+            if k % 2 == 0:
+                gs = run.call(f"{label}:run", g.run, gs, budget_s=budget)
+            else:
+                gs, _ss = run.call(f"{label}:reset", g.reset, gs, budget_s=budget)
+                gs, _ss = run.call(f"{label}:step", g.step, gs, budget_s=budget)
+            if us:
+                t_end = time.perf_counter() + us * 1e-6
+                while time.perf_counter() < t_end:
+                    pass
+            run.call(f"{label}:stop", g.stop, budget_s=budget)
+            e += 1
+        if case.get("storm"):
+            prev_counter = None
+            res.count("storm_stops", len(case["storm"]))
         res.nontrivial = e >= 2 and (active_stop or gated)
         if active_stop:
             res.label("stop_while_threads_progressing")
